@@ -75,6 +75,8 @@ def safe1(ctx, prog, cfg):
         if f is None:
             if short == "CircularBuffer::to_vec" and cfg in ("nostd", "eio_both_nostd"):
                 continue
+            if "::{closure#" in short and prog.fn(short.split("::{closure#")[0]) is not None:
+                continue  # a closure is an implementation detail of its function: SAFE1 judges whichever closures exist
             ctx.violate("SAFE1", short, "anchor-missing", "?", "conversion function not found", cfg)
             continue
         n += 1
@@ -85,6 +87,15 @@ def safe1(ctx, prog, cfg):
                   "`%s` contains %d unsafe block(s), bit-copy sites %s, destructor-disarming sites %s: independence of source and "
                   "result is no longer guaranteed by the type system" % (short, ub, [x for _, x in bc], fg),
                   "no unsafe, no bit-copy, no forget", cfg)
+    listed = set(SAFE_FNS)
+    for short in sorted(prog.fns):
+        base = short.split("::{closure#")[0]
+        if "::{closure#" in short and base in listed and short not in listed:
+            f = prog.fns[short]
+            ub = f.rec.get("unsafe_blocks", 0)
+            bc = c03.bitcopy_sites(f)
+            ctx.check(not ub and not bc, "SAFE1", short, "safe code over T", f.loc,
+                      "`%s` contains %d unsafe block(s), bit-copy sites %s" % (short, ub, [x for _, x in bc]), "no unsafe, no bit-copy", cfg)
     ctx.floor("SAFE1", "conversion functions", n, 12, cfg)
     for short in ("<CircularBuffer<N, T> as Clone>::clone", "CircularBuffer::to_vec", "<CircularBuffer<N, T> as Clone>::clone_from"):
         f = prog.fn(short)
@@ -98,23 +109,32 @@ def safe1(ctx, prog, cfg):
 
 def clonepath1(ctx, prog, cfg):
     mm = shapes.must_match
-    mm(ctx, "CLONEPATH1", prog, "<CircularBuffer<N, T> as Clone>::clone",
-       [r"call CircularBuffer::iter\(self\)", r"call core::iter::traits::iterator::Iterator::cloned\(CircularBuffer::iter\(self\)\)",
-        r"call <CircularBuffer<N, T> as FromIterator<T>>::from_iter\(Iterator::cloned\(CircularBuffer::iter\(self\)\)\)",
-        r"return <CircularBuffer<N, T> as FromIterator<T>>::from_iter\(Iterator::cloned\(CircularBuffer::iter\(self\)\)\)"], cfg,
-       "from_iter(self.iter().cloned())", "`clone` does not build the copy from self.iter().cloned(): elements may be bit-copied or reordered")
+    src = r"Iterator::cloned\(CircularBuffer::iter\(self\)\)"
+    shapes.must_match_any(ctx, "CLONEPATH1", prog, "<CircularBuffer<N, T> as Clone>::clone", [
+        [r"call CircularBuffer::iter\(self\)", r"call core::iter::traits::iterator::Iterator::cloned\(CircularBuffer::iter\(self\)\)",
+         r"call <CircularBuffer<N, T> as FromIterator<T>>::from_iter\(%s\)" % src, r"return <CircularBuffer<N, T> as FromIterator<T>>::from_iter\(%s\)" % src],
+        # `.collect()` into Self is FromIterator::from_iter
+        [r"call CircularBuffer::iter\(self\)", r"call core::iter::traits::iterator::Iterator::cloned\(CircularBuffer::iter\(self\)\)",
+         r"call core::iter::traits::iterator::Iterator::collect\(%s\)" % src, r"return Iterator::collect\(%s\)" % src]], cfg,
+        "from_iter(self.iter().cloned())", "`clone` does not build the copy from self.iter().cloned(): elements may be bit-copied or reordered")
     mm(ctx, "CLONEPATH1", prog, "<CircularBuffer<N, T> as Clone>::clone_from",
        [r"call CircularBuffer::clear\(self\)", r"call CircularBuffer::iter\(other\)",
         r"call core::iter::traits::iterator::Iterator::cloned\(CircularBuffer::iter\(other\)\)",
         r"call <CircularBuffer<N, T> as Extend<T>>::extend\(self, Iterator::cloned\(CircularBuffer::iter\(other\)\)\)", r"return const"], cfg,
        "clear(); extend(other.iter().cloned())", "`clone_from` is not `self.clear(); self.extend(other.iter().cloned())`: old elements survive or the copy is not element-wise")
-    mm(ctx, "CLONEPATH1", prog, "<CircularBuffer<N, T> as FromIterator<T>>::from_iter",
-       [r"?call CircularBuffer::new\(\)", r"call core::iter::traits::collect::IntoIterator::into_iter\(iter\)",
-        r"call core::iter::traits::iterator::Iterator::for_each\(IntoIterator::into_iter\(iter\), \{closure#0\}::\{0: &\{" + NEWV + r"\}\}\)",
-        r"return (" + NEWV + r"|memdef|phi)"], cfg,
-       "new(); iter.for_each(push_back)", "`from_iter` does not start from an empty buffer and feed every item to it")
+    via_extend = shapes.events(prog.fn("<CircularBuffer<N, T> as FromIterator<T>>::from_iter")) if prog.fn("<CircularBuffer<N, T> as FromIterator<T>>::from_iter") else []
+    via_extend = any("Extend<T>>::extend" in e for e in via_extend)
+    shapes.must_match_any(ctx, "CLONEPATH1", prog, "<CircularBuffer<N, T> as FromIterator<T>>::from_iter", [
+        [r"?call CircularBuffer::new\(\)", r"call core::iter::traits::collect::IntoIterator::into_iter\(iter\)",
+         r"call core::iter::traits::iterator::Iterator::for_each\(IntoIterator::into_iter\(iter\), \{closure#0\}::\{0: &\{" + NEWV + r"\}\}\)",
+         r"return (" + NEWV + r"|memdef|phi)"],
+        # ... or through the crate's own Extend impl, which is decided below to be exactly that loop
+        [r"?call CircularBuffer::new\(\)", r"call <CircularBuffer<N, T> as Extend<T>>::extend\(&\{" + NEWV + r"\}, iter\)", r"return (" + NEWV + r"|memdef|phi)"]], cfg,
+        "new(); iter.for_each(push_back)", "`from_iter` does not start from an empty buffer and feed every item to it")
     for short, arg in (("<CircularBuffer<N, T> as FromIterator<T>>::from_iter::{closure#0}", "item"), ("<CircularBuffer<N, T> as Extend<T>>::extend::{closure#0}", "item"),
                        ("<CircularBuffer<N, T> as Extend<&T>>::extend::{closure#0}", r"\(\*item\)\.")):
+        if via_extend and short.startswith("<CircularBuffer<N, T> as FromIterator<T>>") and prog.fn(short) is None:
+            continue  # from_iter forwards to extend: it has no per-item closure of its own
         mm(ctx, "CLONEPATH1", prog, short, [r"call CircularBuffer::push_back\(\(\*_1\)\.0, %s\)" % arg, r"return const"], cfg, "push_back(item)",
            "the per-item closure is not exactly `push_back(item)`: items are dropped, duplicated or inserted elsewhere")
     for short in ("<CircularBuffer<N, T> as Extend<T>>::extend", "<CircularBuffer<N, T> as Extend<&T>>::extend"):
